@@ -294,6 +294,28 @@ def check_value(ctx, case, stratum="value"):
     from hugr import ops
 
     doc_route(ctx, ops.Const(V), "value", stratum, case)
+    # a function value encoded, its body changed in place, encoded again: the second encoding is that of the body as it
+    # is now (found by walking the value for function values)
+    from hugr import val as _val
+
+    def functions(v_):
+        if isinstance(v_, _val.Function):
+            yield v_
+        for attr in ("vals",):
+            for x_ in getattr(v_, attr, None) or []:
+                yield from functions(x_)
+
+    for fv in list(functions(V))[:1]:
+        ctx.count("monitor:function-value-changed-after-encoding")
+        dump(V)
+        body = fv.body
+        body[body.root].metadata["changed-after-encoding"] = [1, 2]
+        j3 = dump(fv)
+        md = (j3.get("hugr") or {}).get("metadata") or []
+        if not any(isinstance(m_, dict) and "changed-after-encoding" in m_ for m_ in md):
+            ctx.disc(None, "value-encoding-remembered", "function value after its body changed",
+                     "metadata 'changed-after-encoding' on the body's root", md[:2], stratum=stratum, case=case)
+        del body[body.root].metadata["changed-after-encoding"]
 
 
 # ------------------------------------------------------------------------------------ ops
